@@ -137,7 +137,12 @@ class Ref:
                 self.handled.append("try")
                 self.write("[x%d]" % e.i)
                 self.block(s[2], env)
+        elif k == "forp":
+            self.probe(s[3], "iter-plain")  # the iterable expression
+            for _ in range(s[1]):
+                self.block(s[2], env)
         elif k == "for":
+            self.probe(s[3], "iter")  # the iterable expression is evaluated before the loop context exists
             cell = [0]
             env.loops.append(cell)
             self.path.append("for")
